@@ -457,7 +457,48 @@ pub fn gen_label_lines(t: &mut Tape, n: usize, allow_random: bool) -> (Vec<Strin
             (0..n.min(6)).map(|_| t.pick(sil).clone()).collect()
         }
     };
+    let mut lines = lines;
+    // 12 %: two labels of the utterance agree in everything but one or two field groups (the
+    // second is a copy of the first with the groups of another corpus line spliced in) - a pair
+    // that any lookup keyed by only a part of the label confuses
+    if lines.len() >= 2 && !matches!(src, Source::Random | Source::Silence) && t.chance(0.12) {
+        let i = t.below(lines.len());
+        let mut j = t.below(lines.len() - 1);
+        if j >= i {
+            j += 1;
+        }
+        let donor = t.pick(&c.lines).clone();
+        let k = t.urange(1, 2);
+        let groups: Vec<usize> = (0..k).map(|_| t.below(12)).collect();
+        if let Some(l) = splice_groups(&lines[i], &donor, &groups) {
+            if l.parse::<Label>().is_ok() {
+                lines[j] = l;
+            }
+        }
+    }
     (lines, src)
+}
+
+/// `a` with the field groups `groups` (0 = phoneme quintuple, 1..=10 = /A: .. /K:) taken from `donor`.
+fn splice_groups(a: &str, donor: &str, groups: &[usize]) -> Option<String> {
+    const MARKS: [&str; 10] = ["/A:", "/B:", "/C:", "/D:", "/E:", "/F:", "/G:", "/H:", "/I:", "/J:"];
+    let cut = |s: &str| -> Option<Vec<String>> {
+        let mut pos = vec![0usize];
+        for m in MARKS.iter().chain(std::iter::once(&"/K:")) {
+            pos.push(s.find(m)?);
+        }
+        pos.push(s.len());
+        if pos.windows(2).any(|w| w[0] > w[1]) {
+            return None;
+        }
+        Some(pos.windows(2).map(|w| s[w[0]..w[1]].to_string()).collect())
+    };
+    let mut sa = cut(a)?;
+    let sd = cut(donor)?;
+    for g in groups {
+        sa[*g] = sd[*g].clone();
+    }
+    Some(sa.concat())
 }
 
 pub fn parse_lines(lines: &[String]) -> Result<Vec<Label>, String> {
